@@ -24,7 +24,7 @@ VAL_SRC: Dict[str, List[str]] = {
     "bool": ["False", "True"],
     "tuple": ["(1, 2)", "(1, 3)", "(2, 3)"],
     "list": ["[1]", "[2]", "[3]"],
-    "dict": ['{"k": 1}', '{"k": 2}', '{"k": 3}'],
+    "dict": ['{"k": 1, "j": "x", "alpha": 0}', '{"k": 2, "j": "x", "alpha": 0}', '{"k": 1, "j": "y", "alpha": 0}'],
     "none": ["None", "1"],
     "date": ["datetime.date(2020, 1, 1)", "datetime.date(2020, 1, 2)", "datetime.date(2020, 1, 3)"],
     "purepath": ['PurePosixPath("/x0")', 'PurePosixPath("/x1")', 'PurePosixPath("/x2")'],
@@ -71,14 +71,29 @@ def enc(name, value):
     return -1
 
 
+ARG_VALS = [0, None, "", 1]
+
+
 def rt(x):
     """A run-time (non literal) argument expression."""
     return x%(extbody)s
 
 
+def encx(x):
+    """Version index of an argument value (several falsy values on purpose); other values as is."""
+    for (i, v) in enumerate(ARG_VALS):
+        if type(v) is type(x) and v == x:
+            return i
+    return x
+
+
 def apply(f):
     return f()
 '''
+
+
+# Python source of an argument literal per version: several *falsy* values on purpose
+ARG_SRC = ["0", "None", '""', "1"]
 
 
 def _vals_table(shape: Shape) -> str:
@@ -113,20 +128,21 @@ def _stmt_lines(shape: Shape, f: str, i: int, s: Dict[str, str], args: Dict[Tupl
     ver = args.get((f, i + 1), 0)
     if a == "none" or a == "default":
         return ["    sv.append(dds.keep(%r, %s))" % (s["p"], g)]
+    lit = ARG_SRC[ver]
     if a == "const":
-        return ["    sv.append(dds.keep(%r, %s, %d))" % (s["p"], g, ver)]
+        return ["    sv.append(dds.keep(%r, %s, %s))" % (s["p"], g, lit)]
     if a == "kw":
-        return ["    sv.append(dds.keep(%r, %s, x=%d))" % (s["p"], g, ver)]
+        return ["    sv.append(dds.keep(%r, %s, x=%s))" % (s["p"], g, lit)]
     assert a == "runtime", s
     if s["lay"] == "1":
-        return ["    sv.append(dds.keep(%r, %s, L.rt(%d)))" % (s["p"], g, ver)]
+        return ["    sv.append(dds.keep(%r, %s, L.rt(%s)))" % (s["p"], g, lit)]
     if s["lay"] == "2":
         return ["    sv.append(dds.keep(%r, %s," % (s["p"], g),
-                "                       L.rt(%d)))" % ver]
+                "                       L.rt(%s)))" % lit]
     # three-line layout: the literal sits on the third line of the call
     return ["    sv.append(dds.keep(%r, %s," % (s["p"], g),
             "                       L.rt(",
-            "                           %d)))" % ver]
+            "                           %s)))" % lit]
 
 
 def _fun_src(shape: Shape, f: str, prog: Dict[str, Any], names: Dict[str, str]) -> List[str]:
@@ -154,7 +170,7 @@ def _fun_src(shape: Shape, f: str, prog: Dict[str, Any], names: Dict[str, str]) 
     lines.append("    sv = []")
     for (i, s) in enumerate(shape.stmts[f]):
         lines += _stmt_lines(shape, f, i, s, args, names)
-    lines.append("    return [%r, b, %s, rv, sv]" % (f, "x" if par != "none" else "99"))
+    lines.append("    return [%r, b, %s, rv, sv]" % (f, "L.encx(x)" if par != "none" else "99"))
     return lines[:start] + [ind + l for l in lines[start:]]
 
 
